@@ -41,59 +41,79 @@ Section Proofs.
   Hypothesis Hc : codec_ok c.
   Hypothesis Hdecl : codec_declared lookup c ck.
 
-  Notation good := (good c n ck).
+  Notation ok_text := (ok_text c n ck).
   Notation file_of := (file_of c n).
   Notation obj_ok := (obj_ok n).
   Notation entry_ok := (entry_ok c n ck).
   Notation inv := (session_inv c n ck).
+  Notation obj_knows := (obj_knows lookup).
+  Notation cur_text := (cur_text lookup).
 
-  Lemma declared_of T d : good T -> file_of T = Some d -> declared_codec repaired lookup d = Some c.
+  Lemma declared_of T d : ok_text T -> file_of T = Some d -> declared_codec repaired lookup d = Some c.
   Proof.
-    intros (_ & _ & Hck & _) Hd. unfold declared_codec. cbn [v_cookie_bytes repaired].
+    intros (_ & Hck & _) Hd. unfold declared_codec. cbn [v_cookie_bytes repaired].
     rewrite <- (cookie_of_enc c Hc _ d Hd), Hck. unfold codec_declared in Hdecl.
     destruct ck; [exact Hdecl | subst c; reflexivity].
   Qed.
 
-  (* File.read() of such a file *)
-  Lemma read_good T d : good T -> file_of T = Some d -> from_bytes repaired lookup d = (T, n).
+  (* File.read() of such a file: the text, and the convention if the file shows one *)
+  Lemma read_ok T d :
+    ok_text T -> file_of T = Some d -> from_bytes repaired lookup d = (T, if has_lf T then n else NlLF).
   Proof.
-    intros HT Hd. pose proof HT as (Hcr & Hlf & _). unfold from_bytes.
+    intros HT Hd. pose proof HT as (Hcr & _). unfold from_bytes.
     rewrite (decode_data_declared lookup d c _ Hc (declared_of T d HT Hd) Hd).
-    rewrite (newline_write_read T n Hcr), Hlf. reflexivity.
+    apply (newline_write_read T n Hcr).
   Qed.
 
-  (* unicode_to_file_data of a good text with the file's convention *)
-  Lemma write_good T d t :
-    good T -> file_of T = Some d -> good t ->
+  (* unicode_to_file_data of a text of the file with the file's convention *)
+  Lemma write_ok T d t :
+    ok_text T -> file_of T = Some d -> ok_text t ->
     exists d', file_of t = Some d' /\ to_bytes repaired lookup t (Some n) = WBytes d'.
   Proof.
-    intros HT Hd Ht. pose proof Ht as (_ & _ & Hck & Hne).
+    intros HT Hd Ht. pose proof Ht as (_ & Hck & Hne).
     destruct (file_of t) as [d'|] eqn:Ed; [|congruence]. exists d'. split; [reflexivity|].
     rewrite (to_bytes_codec lookup d c t (Some n) (declared_of T d HT Hd)).
     - unfold Session.file_of in Ed. rewrite Ed. reflexivity.
-    - destruct HT as (_ & _ & HckT & _). rewrite Hck, <- HckT. apply (cookie_of_enc c Hc _ d Hd).
+    - destruct HT as (_ & HckT & _). rewrite Hck, <- HckT. apply (cookie_of_enc c Hc _ d Hd).
   Qed.
 
-  Definition disk_ok (d : list N) : Prop := exists T, good T /\ file_of T = Some d.
+  Definition disk_ok (d : list N) : Prop := exists T, ok_text T /\ file_of T = Some d.
 
-  Lemma detected_ok s : disk_ok (s_disk s) -> detected repaired lookup s = n.
-  Proof. intros (T & HT & Hd). unfold detected. rewrite (read_good T _ HT Hd). reflexivity. Qed.
-
-  Lemma obj_read_inv s i : inv s -> inv (obj_read repaired lookup s i).
+  (* obj.read(): the attribute stays None-or-n, provided a File object that never read the file sees a line break *)
+  Lemma obj_read_inv s i : inv s -> obj_knows s i -> inv (obj_read repaired lookup s i).
   Proof.
-    intros (Hd & Hpos & Ho & Hu & Hr). unfold obj_read, with_obj, session_inv. cbn [s_disk s_objs s_undo s_redo].
-    rewrite set_nth_length. split5; try assumption.
-    apply set_nth_forall; [assumption|]. right. rewrite (detected_ok s Hd). reflexivity.
+    intros ((T & HT & HdT) & Hpos & Ho & Hu & Hr) Hk. unfold obj_read, with_obj, session_inv.
+    cbn [s_disk s_objs s_undo s_redo]. rewrite set_nth_length. split5; try assumption; [exists T; auto|].
+    apply set_nth_forall; [assumption|]. unfold obj_knows, Session.cur_text, detected in *.
+    rewrite (read_ok T _ HT HdT) in *. cbn [fst snd v_keep repaired andb] in *.
+    pose proof (nth_forall obj_ok (s_objs s) i None Ho (or_introl eq_refl)) as Hm. fold (get_obj s i) in Hm.
+    destruct (get_obj s i) as [m|].
+    - destruct Hm as [Hm|Hm]; [discriminate|]. injection Hm as ->.
+      destruct (has_lf T); cbn [negb]; right; reflexivity.
+    - rewrite (Hk eq_refl). right. reflexivity.
+  Qed.
+
+  Lemma obj_read_get s i :
+    inv s -> (i < length (s_objs s))%nat -> obj_knows s i -> get_obj (obj_read repaired lookup s i) i = Some n.
+  Proof.
+    intros ((T & HT & HdT) & Hpos & Ho & Hu & Hr) Hi Hk. unfold obj_read, with_obj, get_obj at 1. cbn [s_objs].
+    rewrite nth_set_nth by assumption. unfold obj_knows, Session.cur_text, detected in *.
+    rewrite (read_ok T _ HT HdT) in *. cbn [fst snd v_keep repaired andb] in *.
+    pose proof (nth_forall obj_ok (s_objs s) i None Ho (or_introl eq_refl)) as Hm. fold (get_obj s i) in Hm.
+    destruct (get_obj s i) as [m|].
+    - destruct Hm as [Hm|Hm]; [discriminate|]. injection Hm as ->. destruct (has_lf T); reflexivity.
+    - rewrite (Hk eq_refl). reflexivity.
   Qed.
 
   (* write_file through an object of the session writes the text in the file's encoding and convention *)
-  Lemma obj_write_good s i t :
-    inv s -> (i < length (s_objs s))%nat -> good t ->
+  Lemma obj_write_ok s i t :
+    inv s -> (i < length (s_objs s))%nat -> obj_knows s i -> ok_text t ->
     exists d' s', obj_write repaired lookup soa s i t = (s', WBytes d')
                   /\ file_of t = Some d' /\ s_disk s' = d' /\ inv s'
-                  /\ s_undo s' = s_undo s /\ s_redo s' = s_redo s /\ length (s_objs s') = length (s_objs s).
+                  /\ s_undo s' = s_undo s /\ s_redo s' = s_redo s /\ length (s_objs s') = length (s_objs s)
+                  /\ get_obj s' i = Some n.
   Proof.
-    intros Hinv Hi Ht. unfold obj_write.
+    intros Hinv Hi Hk Ht. unfold obj_write.
     set (s1 := match get_obj s i with
                | None => if v_detect repaired then obj_read repaired lookup s i else s
                | Some _ => s end).
@@ -104,25 +124,25 @@ Section Proofs.
       - split; [exact Hinv|]. do 4 (split; [reflexivity|]).
         destruct Hinv as (_ & _ & Ho & _). pose proof (nth_forall obj_ok (s_objs s) i None Ho (or_introl eq_refl)) as Hm.
         unfold get_obj in *. rewrite Eg in Hm. destruct Hm as [Hm|Hm]; [discriminate | rewrite Eg; exact Hm].
-      - cbn [v_detect repaired]. split; [apply obj_read_inv; exact Hinv|]. do 3 (split; [reflexivity|]).
-        split.
-        + unfold obj_read, with_obj. cbn [s_objs]. apply set_nth_length.
-        + unfold get_obj, obj_read, with_obj. cbn [s_objs]. rewrite nth_set_nth by assumption.
-          destruct Hinv as (Hd & _). rewrite (detected_ok s Hd). reflexivity. }
+      - cbn [v_detect repaired]. split; [apply obj_read_inv; assumption|]. do 3 (split; [reflexivity|]).
+        split; [unfold obj_read, with_obj; cbn [s_objs]; apply set_nth_length | apply obj_read_get; assumption]. }
     pose proof H1 as ((T & HT & HdT) & Hpos1 & Ho1 & Hun1 & Hre1).
-    destruct (write_good T _ t HT HdT Ht) as (d' & Hf & Hw). rewrite Hg, Hw. exists d'.
+    destruct (write_ok T _ t HT HdT Ht) as (d' & Hf & Hw). rewrite Hg, Hw. exists d'.
     set (s2 := with_disk s1 d').
     assert (inv s2) as H2.
     { unfold s2, with_disk, session_inv. cbn [s_disk s_objs s_undo s_redo]. split5; try assumption.
       exists t. split; assumption. }
+    assert (obj_knows s2 i) as Hk2.
+    { unfold obj_knows, s2, with_disk, get_obj. cbn [s_objs]. fold (get_obj s1 i). rewrite Hg. discriminate. }
     destruct soa.
     - exists (obj_read repaired lookup s2 i).
-      split; [reflexivity|]. split; [exact Hf|]. split; [reflexivity|]. split; [apply obj_read_inv, H2|].
+      split; [reflexivity|]. split; [exact Hf|]. split; [reflexivity|]. split; [apply obj_read_inv; assumption|].
       split; [exact Hu1|]. split; [exact Hr1|].
-      unfold obj_read, with_obj, s2, with_disk. cbn [s_objs]. rewrite set_nth_length. exact Hl1.
+      split; [unfold obj_read, with_obj, s2, with_disk; cbn [s_objs]; rewrite set_nth_length; exact Hl1|].
+      apply obj_read_get; try assumption. unfold s2, with_disk. cbn [s_objs]. rewrite Hl1. exact Hi.
     - exists s2.
       split; [reflexivity|]. split; [exact Hf|]. split; [reflexivity|]. split; [exact H2|].
-      split; [exact Hu1|]. split; [exact Hr1|]. exact Hl1.
+      split; [exact Hu1|]. split; [exact Hr1|]. split; [exact Hl1 | exact Hg].
   Qed.
 
   Lemma entries_weaken len len' l : (len <= len')%nat -> Forall (entry_ok len) l -> Forall (entry_ok len') l.
@@ -132,25 +152,32 @@ Section Proofs.
   Qed.
 
   (* project.do(ChangeContents(obj i, t)) *)
-  Lemma do_change_good s i t :
-    inv s -> (i < length (s_objs s))%nat -> good t ->
+  Lemma do_change_ok s i t :
+    inv s -> (i < length (s_objs s))%nat -> obj_knows s i -> ok_text t ->
     exists s', do_change repaired lookup soa s i t = (s', 0)
-               /\ file_of t = Some (s_disk s') /\ inv s'.
+               /\ file_of t = Some (s_disk s') /\ inv s'
+               /\ length (s_objs s') = length (s_objs s) /\ get_obj s' i = Some n
+               /\ (exists old, s_undo s' = (i, old, t) :: s_undo s) /\ s_redo s' = [].
   Proof.
-    intros Hinv Hi Ht. unfold do_change.
-    pose proof (obj_read_inv s i Hinv) as H1.
+    intros Hinv Hi Hk Ht. unfold do_change.
+    pose proof (obj_read_inv s i Hinv Hk) as H1.
     assert (i < length (s_objs (obj_read repaired lookup s i)))%nat as Hi1.
     { unfold obj_read, with_obj. cbn [s_objs]. rewrite set_nth_length. exact Hi. }
-    destruct (obj_write_good _ i t H1 Hi1 Ht) as (d' & s2 & Hw & Hf & Hd & H2 & Hu & Hr & Hl). rewrite Hw.
-    eexists. split; [reflexivity|]. cbn [s_disk]. split; [rewrite Hd; exact Hf|].
-    destruct H2 as (Hdk & Hpos & Ho & Hun & Hre). unfold session_inv. cbn [s_disk s_objs s_undo s_redo].
-    split5; try assumption; [|constructor]. constructor; [|exact Hun].
-    destruct Hinv as ((T & HT & HdT) & _). unfold Session.entry_ok. cbn [fst snd]. rewrite (read_good T _ HT HdT). cbn [fst].
-    split; [|split; assumption]. rewrite Hl. exact Hi1.
+    assert (obj_knows (obj_read repaired lookup s i) i) as Hk1.
+    { unfold obj_knows. rewrite (obj_read_get s i Hinv Hi Hk). discriminate. }
+    destruct (obj_write_ok _ i t H1 Hi1 Hk1 Ht) as (d' & s2 & Hw & Hf & Hd & H2 & Hu & Hr & Hl & Hg). rewrite Hw.
+    eexists. split; [reflexivity|]. cbn [s_disk s_objs s_undo s_redo]. split; [rewrite Hd; exact Hf|].
+    split.
+    { destruct H2 as (Hdk & Hpos & Ho & Hun & Hre). unfold session_inv. cbn [s_disk s_objs s_undo s_redo].
+      split5; try assumption; [|constructor]. constructor; [|exact Hun].
+      destruct Hinv as ((T & HT & HdT) & _). unfold Session.entry_ok. cbn [fst snd]. rewrite (read_ok T _ HT HdT). cbn [fst].
+      split; [|split; assumption]. rewrite Hl. exact Hi1. }
+    split; [rewrite Hl; unfold obj_read, with_obj; cbn [s_objs]; apply set_nth_length|].
+    split; [exact Hg|]. split; [|reflexivity]. eexists. rewrite Hu. reflexivity.
   Qed.
 
   Lemma renumber_ok : forall l k len,
-    (k + length l <= len)%nat -> Forall (fun e => good (snd (fst e)) /\ good (snd e)) l ->
+    (k + length l <= len)%nat -> Forall (fun e => ok_text (snd (fst e)) /\ ok_text (snd e)) l ->
     Forall (entry_ok len) (renumber k l).
   Proof.
     induction l as [|e l IH]; intros k len Hk H; [constructor|]. rewrite renumber_cons.
@@ -159,27 +186,30 @@ Section Proofs.
     - apply IH; [lia | exact Hl].
   Qed.
 
-  Lemma entries_texts len l : Forall (entry_ok len) l -> Forall (fun e => good (snd (fst e)) /\ good (snd e)) l.
+  Lemma entries_texts len l : Forall (entry_ok len) l -> Forall (fun e => ok_text (snd (fst e)) /\ ok_text (snd e)) l.
   Proof. intros H. induction H as [|e l (_ & Ho) _ IH]; constructor; assumption. Qed.
 
   (* ---- one step ---- *)
   Theorem session_step s st :
-    inv s -> step_good c n ck st ->
+    inv s -> step_ok lookup c n ck s st ->
     inv (fst (run_step repaired lookup soa s st))
     /\ step_bytes c n s st (s_disk (fst (run_step repaired lookup soa s st))).
   Proof.
     intros Hinv Hst. pose proof Hinv as (Hdk & Hpos & Ho & Hun & Hre).
-    destruct st as [|t|t|t| | |b|]; cbn [run_step step_bytes step_good] in *.
-    - (* read *) split; [apply obj_read_inv, Hinv | reflexivity].
+    destruct st as [|t|t|t| | |b|]; cbn [run_step step_bytes step_ok] in *.
+    - (* read *) split; [apply obj_read_inv; assumption | reflexivity].
     - (* File.write *)
-      pose proof (obj_read_inv s 0 Hinv) as H1. destruct Hdk as (T & HT & HdT).
-      rewrite (read_good T _ HT HdT). cbn [fst].
+      destruct Hst as (Ht & Hk). pose proof (obj_read_inv s 0 Hinv Hk) as H1. destruct Hdk as (T & HT & HdT).
+      rewrite (read_ok T _ HT HdT). cbn [fst].
       destruct (text_eqb_spec t T) as [->|Hne].
       + cbn [fst]. split; [exact H1 | exact HdT].
       + assert (0 < length (s_objs (obj_read repaired lookup s 0)))%nat as H0.
         { unfold obj_read, with_obj. cbn [s_objs]. rewrite set_nth_length. exact Hpos. }
-        destruct (do_change_good _ 0%nat t H1 H0 Hst) as (s' & Hd & Hf & H'). rewrite Hd. cbn [fst]. split; assumption.
-    - (* a fresh File object *)
+        assert (obj_knows (obj_read repaired lookup s 0) 0) as Hk1.
+        { unfold obj_knows. rewrite (obj_read_get s 0%nat Hinv Hpos Hk). discriminate. }
+        destruct (do_change_ok _ 0%nat t H1 H0 Hk1 Ht) as (s' & Hd & Hf & H' & _). rewrite Hd. cbn [fst]. split; assumption.
+    - (* a fresh File object: it takes the convention from the bytes on disk *)
+      destruct Hst as (Ht & Hlf).
       set (s0 := {| s_disk := s_disk s; s_objs := s_objs s ++ [None]; s_undo := s_undo s; s_redo := s_redo s |}).
       assert (inv s0) as H0.
       { unfold s0, session_inv. cbn [s_disk s_objs s_undo s_redo]. rewrite app_length. cbn [length].
@@ -189,26 +219,28 @@ Section Proofs.
         - apply (entries_weaken (length (s_objs s))); [lia | assumption]. }
       assert (length (s_objs s) < length (s_objs s0))%nat as Hi.
       { unfold s0. cbn [s_objs]. rewrite app_length. cbn [length]. lia. }
-      destruct (do_change_good s0 _ t H0 Hi Hst) as (s' & Hd & Hf & H'). rewrite Hd. cbn [fst]. split; assumption.
+      assert (obj_knows s0 (length (s_objs s))) as Hk0 by (intros _; exact Hlf).
+      destruct (do_change_ok s0 _ t H0 Hi Hk0 Ht) as (s' & Hd & Hf & H' & _). rewrite Hd. cbn [fst]. split; assumption.
     - (* the caller's object *)
-      destruct (do_change_good s 0%nat t Hinv Hpos Hst) as (s' & Hd & Hf & H'). rewrite Hd. cbn [fst]. split; assumption.
+      destruct Hst as (Ht & Hk).
+      destruct (do_change_ok s 0%nat t Hinv Hpos Hk Ht) as (s' & Hd & Hf & H' & _). rewrite Hd. cbn [fst]. split; assumption.
     - (* undo *)
       destruct (s_undo s) as [|[[i old] new] u] eqn:Eu; [split; [exact Hinv | reflexivity]|].
       inversion Hun as [|? ? (Hi & Hold & Hnew) Hu']; subst. cbn [fst snd] in *.
-      destruct (obj_write_good s i old Hinv Hi Hold) as (d' & s2 & Hw & Hf & Hd & H2 & Hu2 & Hr2 & Hl). rewrite Hw.
+      destruct (obj_write_ok s i old Hinv Hi Hst Hold) as (d' & s2 & Hw & Hf & Hd & H2 & Hu2 & Hr2 & Hl & _). rewrite Hw.
       cbn [fst s_disk]. split; [|rewrite Hd; exact Hf].
       destruct H2 as (Hdk2 & Hpos2 & Ho2 & _ & _). unfold session_inv. cbn [s_disk s_objs s_undo s_redo].
       rewrite Hl, Hr2. split5; try assumption. constructor; [|exact Hre]. unfold Session.entry_ok. cbn [fst snd]. auto.
     - (* redo *)
       destruct (s_redo s) as [|[[i old] new] u] eqn:Eu; [split; [exact Hinv | reflexivity]|].
       inversion Hre as [|? ? (Hi & Hold & Hnew) Hu']; subst. cbn [fst snd] in *.
-      destruct (obj_write_good s i new Hinv Hi Hnew) as (d' & s2 & Hw & Hf & Hd & H2 & Hu2 & Hr2 & Hl). rewrite Hw.
+      destruct (obj_write_ok s i new Hinv Hi Hst Hnew) as (d' & s2 & Hw & Hf & Hd & H2 & Hu2 & Hr2 & Hl & _). rewrite Hw.
       cbn [fst s_disk]. split; [|rewrite Hd; exact Hf].
       destruct H2 as (Hdk2 & Hpos2 & Ho2 & _ & _). unfold session_inv. cbn [s_disk s_objs s_undo s_redo].
       rewrite Hl, Hu2. split5; try assumption. constructor; [|exact Hun]. unfold Session.entry_ok. cbn [fst snd]. auto.
     - (* external rewrite that keeps codec, convention and declaration *)
       cbn [fst]. split; [|reflexivity]. unfold with_disk, session_inv. cbn [s_disk s_objs s_undo s_redo].
-      split5; assumption.
+      split5; try assumption. destruct Hst as (T & (HT & _) & Hb). exists T. split; assumption.
     - (* close / reopen *)
       cbn [fst s_disk]. split; [|reflexivity]. unfold session_inv. cbn [s_disk s_objs s_undo s_redo].
       rewrite repeat_length. split5; try assumption; try lia.
@@ -220,67 +252,217 @@ Section Proofs.
 
   (* ---- any number of steps ---- *)
   Theorem session_preserves steps : forall s,
-    inv s -> Forall (step_good c n ck) steps -> inv (run_steps repaired lookup soa s steps).
+    inv s -> steps_ok lookup c n ck soa s steps -> inv (run_steps repaired lookup soa s steps).
   Proof.
-    induction steps as [|st steps IH]; intros s Hinv Hst; [exact Hinv|]. cbn [run_steps].
-    inversion Hst; subst. apply IH; [|assumption]. apply session_step; assumption.
+    induction steps as [|st steps IH]; intros s Hinv Hst; [exact Hinv|]. cbn [run_steps steps_ok] in *.
+    destruct Hst as (H1 & H2). apply IH; [|exact H2]. apply session_step; assumption.
   Qed.
 
   (* a file inside the property, freshly opened *)
-  Lemma initial_inv T d : good T -> file_of T = Some d -> inv (initial d).
+  Lemma initial_inv T d : ok_text T -> file_of T = Some d -> inv (initial d).
   Proof.
     intros HT Hd. unfold initial, session_inv. cbn [s_disk s_objs s_undo s_redo length]. split5; try constructor; try lia.
     - exists T. split; assumption.
     - left. reflexivity.
     - constructor.
   Qed.
+
+  (* ---- ONE File object, no reopening: no line break is needed in the texts written -------------------------- *)
+  Definition single (s : sess) : Prop :=
+    inv s /\ length (s_objs s) = 1%nat
+    /\ (get_obj s 0 = Some n \/ has_lf (cur_text s) = true)
+    /\ Forall (fun e => fst (fst e) = 0%nat) (s_undo s) /\ Forall (fun e => fst (fst e) = 0%nat) (s_redo s)
+    /\ (get_obj s 0 = None -> s_undo s = [] /\ s_redo s = []).
+
+  Lemma single_knows s : single s -> obj_knows s 0.
+  Proof. intros (_ & _ & [H|H] & _) Hn; [congruence | exact H]. Qed.
+
+  Lemma single_step_ok s st : single s -> step_single c n ck st -> step_ok lookup c n ck s st.
+  Proof.
+    intros Hs Hst. pose proof (single_knows s Hs) as Hk. destruct Hs as (_ & _ & _ & Hu & Hr & _).
+    destruct st as [|t|t|t| | |b|]; cbn [step_single step_ok] in *; try contradiction; auto.
+    - destruct (s_undo s) as [|[[i old] new] u]; [exact I|]. inversion Hu; subst. cbn [fst] in *. subst i. exact Hk.
+    - destruct (s_redo s) as [|[[i old] new] u]; [exact I|]. inversion Hr; subst. cbn [fst] in *. subst i. exact Hk.
+  Qed.
+  Lemma cur_has_lf_of_good s b T :
+    good c n ck T -> file_of T = Some b -> has_lf (cur_text (with_disk s b)) = true.
+  Proof.
+    intros (HT & Hlf) Hb. unfold Session.cur_text, with_disk. cbn [s_disk]. rewrite (read_ok T _ HT Hb). exact Hlf.
+  Qed.
+
+  Lemma obj_read_get_single s :
+    inv s -> length (s_objs s) = 1%nat -> obj_knows s 0 -> get_obj (obj_read repaired lookup s 0) 0 = Some n.
+  Proof. intros Hinv Hl Hk. apply obj_read_get; [assumption | lia | assumption]. Qed.
+
+  Theorem single_step s st :
+    single s -> step_single c n ck st -> single (fst (run_step repaired lookup soa s st)).
+  Proof.
+    intros Hs Hst. pose proof (single_knows s Hs) as Hk. pose proof (single_step_ok s st Hs Hst) as Hok.
+    destruct Hs as (Hinv & Hlen & Hob & Hu & Hr & Hnone).
+    assert (0 < length (s_objs s))%nat as Hpos by lia.
+    destruct st as [|t|t|t| | |b|]; cbn [step_single run_step] in *; try contradiction.
+    - (* read *)
+      cbn [fst]. unfold single. split; [apply obj_read_inv; assumption|].
+      split; [unfold obj_read, with_obj; cbn [s_objs]; rewrite set_nth_length; exact Hlen|].
+      split; [left; apply obj_read_get_single; assumption|].
+      split; [exact Hu|]. split; [exact Hr|]. rewrite (obj_read_get_single s Hinv Hlen Hk). discriminate.
+    - (* File.write *)
+      pose proof (obj_read_inv s 0 Hinv Hk) as H1. pose proof (obj_read_get_single s Hinv Hlen Hk) as Hg1.
+      assert (length (s_objs (obj_read repaired lookup s 0)) = 1%nat) as Hl1.
+      { unfold obj_read, with_obj. cbn [s_objs]. rewrite set_nth_length. exact Hlen. }
+      destruct (text_eqb t (fst (from_bytes repaired lookup (s_disk s)))).
+      + cbn [fst]. unfold single. split; [exact H1|]. split; [exact Hl1|]. split; [left; exact Hg1|].
+        split; [exact Hu|]. split; [exact Hr|]. rewrite Hg1. discriminate.
+      + assert (obj_knows (obj_read repaired lookup s 0) 0) as Hk1 by (unfold obj_knows; rewrite Hg1; discriminate).
+        destruct (do_change_ok _ 0%nat t H1 ltac:(lia) Hk1 Hst) as (s' & Hd & _ & H' & Hl' & Hg' & (old & Hu') & Hr').
+        rewrite Hd. cbn [fst]. unfold single. split; [exact H'|]. split; [lia|]. split; [left; exact Hg'|].
+        split; [rewrite Hu'; constructor; [reflexivity | exact Hu]|]. split; [rewrite Hr'; constructor|].
+        rewrite Hg'. discriminate.
+    - (* ChangeContents on the caller's object *)
+      destruct (do_change_ok s 0%nat t Hinv Hpos Hk Hst) as (s' & Hd & _ & H' & Hl' & Hg' & (old & Hu') & Hr').
+      rewrite Hd. cbn [fst]. unfold single. split; [exact H'|]. split; [lia|]. split; [left; exact Hg'|].
+      split; [rewrite Hu'; constructor; [reflexivity | exact Hu]|]. split; [rewrite Hr'; constructor|].
+      rewrite Hg'. discriminate.
+    - (* undo *)
+      destruct (s_undo s) as [|[[i old] new] u] eqn:Eu.
+      { cbn [fst]. unfold single. rewrite Eu. auto 10. }
+      inversion Hu as [|? ? Hi0 Hu0]; subst. cbn [fst] in Hi0. subst i.
+      destruct Hinv as (Hdk & Hp & Ho & Hun & Hre). pose proof Hun as Hun'. rewrite Eu in Hun'.
+      inversion Hun' as [|? ? (_ & Hold & Hnew) Htail]; subst. cbn [fst snd] in *.
+      assert (inv s) as Hinv by (unfold session_inv; auto).
+      destruct (obj_write_ok s 0%nat old Hinv Hpos Hk Hold) as (d' & s2 & Hw & Hf & Hd & H2 & Hu2 & Hr2 & Hl & Hg).
+      rewrite Hw. cbn [fst]. unfold single. cbn [s_objs s_undo s_redo].
+      assert (get_obj {| s_disk := s_disk s2; s_objs := s_objs s2; s_undo := u; s_redo := (0%nat, old, new) :: s_redo s2 |} 0
+              = Some n) as Hg' by exact Hg.
+      split.
+      { destruct H2 as (Hdk2 & Hpos2 & Ho2 & _ & _). unfold session_inv. cbn [s_disk s_objs s_undo s_redo].
+        rewrite Hl, Hr2. split5; try assumption. constructor; [|exact Hre].
+        unfold Session.entry_ok. cbn [fst snd]. auto. }
+      split; [lia|]. split; [left; exact Hg'|]. split; [exact Hu0|].
+      split; [rewrite Hr2; constructor; [reflexivity | exact Hr]|]. rewrite Hg'. discriminate.
+    - (* redo *)
+      destruct (s_redo s) as [|[[i old] new] u] eqn:Eu.
+      { cbn [fst]. unfold single. rewrite Eu. auto 10. }
+      inversion Hr as [|? ? Hi0 Hr0]; subst. cbn [fst] in Hi0. subst i.
+      destruct Hinv as (Hdk & Hp & Ho & Hun & Hre). pose proof Hre as Hre'. rewrite Eu in Hre'.
+      inversion Hre' as [|? ? (_ & Hold & Hnew) Htail]; subst. cbn [fst snd] in *.
+      assert (inv s) as Hinv by (unfold session_inv; auto).
+      destruct (obj_write_ok s 0%nat new Hinv Hpos Hk Hnew) as (d' & s2 & Hw & Hf & Hd & H2 & Hu2 & Hr2 & Hl & Hg).
+      rewrite Hw. cbn [fst]. unfold single. cbn [s_objs s_undo s_redo].
+      assert (get_obj {| s_disk := s_disk s2; s_objs := s_objs s2; s_undo := (0%nat, old, new) :: s_undo s2; s_redo := u |} 0
+              = Some n) as Hg' by exact Hg.
+      split.
+      { destruct H2 as (Hdk2 & Hpos2 & Ho2 & _ & _). unfold session_inv. cbn [s_disk s_objs s_undo s_redo].
+        rewrite Hl, Hu2. split5; try assumption. constructor; [|exact Hun].
+        unfold Session.entry_ok. cbn [fst snd]. auto. }
+      split; [lia|]. split; [left; exact Hg'|].
+      split; [rewrite Hu2; constructor; [reflexivity | exact Hu]|]. split; [exact Hr0|]. rewrite Hg'. discriminate.
+    - (* external rewrite *)
+      cbn [fst]. destruct Hst as (T & HT & Hb). unfold single.
+      split; [apply (session_step s (SExternal b) Hinv); cbn [step_ok]; exists T; auto|].
+      split; [exact Hlen|]. split; [right; apply (cur_has_lf_of_good s b T HT Hb)|].
+      split; [exact Hu|]. split; [exact Hr|]. exact Hnone.
+  Qed.
+
+  Theorem single_step_full s st :
+    single s -> step_single c n ck st ->
+    single (fst (run_step repaired lookup soa s st)) /\ step_ok lookup c n ck s st.
+  Proof. intros Hs Hst. split; [apply single_step; assumption | apply single_step_ok; assumption]. Qed.
+
+  Theorem single_preserves steps : forall s,
+    single s -> Forall (step_single c n ck) steps -> single (run_steps repaired lookup soa s steps).
+  Proof.
+    induction steps as [|st steps IH]; intros s Hs Hst; [exact Hs|]. cbn [run_steps].
+    inversion Hst; subst. apply IH; [|assumption]. apply single_step; assumption.
+  Qed.
+
+  (* a file inside the property that shows its convention, freshly opened *)
+  Lemma initial_single T d : good c n ck T -> file_of T = Some d -> single (initial d).
+  Proof.
+    intros (HT & Hlf) Hd. unfold single. split; [apply (initial_inv T d HT Hd)|]. split; [reflexivity|].
+    split; [right; unfold Session.cur_text, initial; cbn [s_disk]; rewrite (read_ok T _ HT Hd); exact Hlf|].
+    cbn. auto.
+  Qed.
 End Proofs.
 
-(* ---- non-vacuity: a Latin-1 CRLF file and a session with edit, undo, reopen, redo, external rewrite -------- *)
-Definition ex_session_steps : list step :=
-  [SRead; SWrite (ex_text ++ [10; 121; 32; 61; 32; 50; 10]); SUndo; SReopen; SRedo;
-   SExternal ex_text_raw; SDoFresh (ex_text ++ [10]); SDoSame ex_text; SUndo].
+(* ---- non-vacuity --------------------------------------------------------------------------------------------
+   the Latin-1 CRLF file of FileModelProofs ("# -*- coding: latin-1 -*-" CRLF "s = 'é'" CRLF "x = 1") *)
+Definition ex_ck : option text := Some latin_1_name.
+Definition ex_cookie_line : text :=
+  [35;32;45;42;45;32;99;111;100;105;110;103;58;32;108;97;116;105;110;45;49;32;45;42;45].
 
-Lemma ex_good t :
-  has_cr t = false -> has_lf t = true -> cookie_of (encode_nl t (Some NlCRLF)) = Some latin_1_name ->
-  (exists x, enc latin1 (encode_nl t (Some NlCRLF)) = Some x) -> good latin1 NlCRLF (Some latin_1_name) t.
-Proof. intros H1 H2 H3 (x & H4). repeat split; try assumption. unfold file_of. rewrite H4. discriminate. Qed.
+Lemma ex_ok t :
+  has_cr t = false -> cookie_of (encode_nl t (Some NlCRLF)) = ex_ck ->
+  (exists x, enc latin1 (encode_nl t (Some NlCRLF)) = Some x) -> ok_text latin1 NlCRLF ex_ck t.
+Proof. intros H1 H3 (x & H4). repeat split; try assumption. unfold file_of. rewrite H4. discriminate. Qed.
 
-Example ex_session_hyps :
-  codec_declared std_lookup latin1 (Some latin_1_name)
-  /\ good latin1 NlCRLF (Some latin_1_name) ex_text
-  /\ file_of latin1 NlCRLF ex_text = Some ex_text_raw
-  /\ Forall (step_good latin1 NlCRLF (Some latin_1_name)) ex_session_steps
-  /\ s_disk (run_steps repaired std_lookup true (initial ex_text_raw) ex_session_steps) = ex_text_raw ++ [13; 10].
+Ltac ex_ok_tac := apply ex_ok; [vm_compute; reflexivity | vm_compute; reflexivity | eexists; vm_compute; reflexivity].
+
+(* one File object; the second step writes a text WITHOUT any line break, undo and redo go through it *)
+Definition ex_single_steps : list step :=
+  [SRead; SWrite ex_cookie_line; SUndo; SRedo; SDoSame ex_text; SExternal ex_text_raw; SUndo; SUndo].
+
+Example ex_single_hyps :
+  codec_declared std_lookup latin1 ex_ck
+  /\ good latin1 NlCRLF ex_ck ex_text /\ file_of latin1 NlCRLF ex_text = Some ex_text_raw
+  /\ Forall (step_single latin1 NlCRLF ex_ck) ex_single_steps
+  /\ has_lf ex_cookie_line = false
+  /\ s_disk (run_steps repaired std_lookup true (initial ex_text_raw) ex_single_steps) = ex_text_raw.
 Proof.
-  assert (forall t, has_cr t = false -> has_lf t = true ->
-                    cookie_of (encode_nl t (Some NlCRLF)) = Some latin_1_name ->
-                    (exists x, enc latin1 (encode_nl t (Some NlCRLF)) = Some x) ->
-                    good latin1 NlCRLF (Some latin_1_name) t) as G by exact ex_good.
   split; [vm_compute; reflexivity|].
-  split; [apply G; try (vm_compute; reflexivity); eexists; vm_compute; reflexivity|].
+  split; [split; [ex_ok_tac | vm_compute; reflexivity]|].
   split; [vm_compute; reflexivity|].
-  split; [|vm_compute; reflexivity].
-  unfold ex_session_steps. repeat constructor; cbn [step_good].
-  - apply G; try (vm_compute; reflexivity). eexists; vm_compute; reflexivity.
-  - exists ex_text. split; [|vm_compute; reflexivity].
-    apply G; try (vm_compute; reflexivity). eexists; vm_compute; reflexivity.
-  - apply G; try (vm_compute; reflexivity). eexists; vm_compute; reflexivity.
-  - apply G; try (vm_compute; reflexivity). eexists; vm_compute; reflexivity.
+  split; [|split; vm_compute; reflexivity].
+  unfold ex_single_steps. repeat constructor; cbn [step_single]; try ex_ok_tac.
+  exists ex_text. split; [split; [ex_ok_tac | vm_compute; reflexivity] | vm_compute; reflexivity].
 Qed.
 
-(* ---- OPEN FINDING C16-oneline-resets-newlines -------------------------------------------------------------
+(* fresh File object, close/reopen, undo through the reloaded history: allowed while the file shows a line break *)
+Definition ex_session_steps : list step := [SDoFresh (ex_text ++ [10]); SReopen; SUndo; SRedo; SWrite ex_cookie_line].
+
+Example ex_session_hyps :
+  ok_text latin1 NlCRLF ex_ck ex_text /\ file_of latin1 NlCRLF ex_text = Some ex_text_raw
+  /\ steps_ok std_lookup latin1 NlCRLF ex_ck true (initial ex_text_raw) ex_session_steps.
+Proof.
+  split; [ex_ok_tac|]. split; [vm_compute; reflexivity|].
+  unfold ex_session_steps. cbn [steps_ok step_ok].
+  split; [split; [ex_ok_tac | vm_compute; reflexivity]|].
+  split; [exact I|].
+  split; [vm_compute; intros _; reflexivity|].
+  split; [vm_compute; intros _; reflexivity|].
+  split; [|exact I]. split; [ex_ok_tac | vm_compute; intros _; reflexivity].
+Qed.
+
+(* ---- FIXED by fe48e43 (mechanisms: automatic_soa re-read, File.read, File.write through the same object) -------
    "import os\r\nvalue = 1" (CRLF, Python file, automatic_soa on): File.write("value = 1") leaves a file without
-   line break, the SOA observer re-reads it through the same File object (newlines := "\n"), and undo restores
-   the old text with LF.  Without the observer (automatic_soa off / not a Python file) undo restores the bytes.
-   The text written has no line break, which is what [good] (has_lf) excludes in C16_session_preserves. *)
+   line break; BEFORE fe48e43 the observer's re-read reset File.newlines to "\n" and undo restored the old text
+   with LF; now the object keeps its convention. *)
 Definition oneline_file : list N := [105;109;112;111;114;116;32;111;115;13;10;118;97;108;117;101;32;61;32;49].
 Definition oneline_text : text := [118;97;108;117;101;32;61;32;49].
 
 Theorem oneline_resets_newlines_refuted :
   exists b t,
     consistentb NlCRLF b = true /\ has_lf t = false
-    /\ s_disk (run_steps repaired std_lookup true (initial b) [SWrite t; SUndo]) <> b
-    /\ has_cr (s_disk (run_steps repaired std_lookup true (initial b) [SWrite t; SUndo])) = false
-    /\ s_disk (run_steps repaired std_lookup false (initial b) [SWrite t; SUndo]) = b.
-Proof. exists oneline_file, oneline_text. vm_compute. repeat split; try reflexivity. discriminate. Qed.
+    /\ s_disk (run_steps before_fe48e43 std_lookup true (initial b) [SWrite t; SUndo]) <> b
+    /\ has_cr (s_disk (run_steps before_fe48e43 std_lookup true (initial b) [SWrite t; SUndo])) = false
+    /\ s_disk (run_steps before_fe48e43 std_lookup false (initial b) [SDoSame t; SRead; SUndo]) <> b.
+Proof. exists oneline_file, oneline_text. vm_compute. repeat split; try reflexivity; discriminate. Qed.
+
+Example oneline_resets_newlines_fixed :
+  s_disk (run_steps repaired std_lookup true (initial oneline_file) [SWrite oneline_text; SUndo]) = oneline_file
+  /\ s_disk (run_steps repaired std_lookup false (initial oneline_file) [SDoSame oneline_text; SRead; SUndo]) = oneline_file
+  /\ s_disk (run_steps repaired std_lookup true (initial oneline_file) [SWrite oneline_text; SUndo; SRedo; SWrite [97; 10; 98; 10]])
+     = [97; 13; 10; 98; 13; 10].
+Proof. vm_compute. repeat split; reflexivity. Qed.
+
+(* ---- OPEN FINDING C16-oneline-reopen-loses-newlines (code in /repo now) ------------------------------------------
+   the same edit, then close and reopen the project, then undo: the history holds texts only, the reloaded change
+   has a fresh File object, write_file detects the convention from the one-line file ("\n") and the old text comes
+   back with LF line ends.  [obj_knows] in C16_session_step excludes exactly this use of a fresh object. *)
+Theorem oneline_reopen_refuted :
+  exists b t,
+    consistentb NlCRLF b = true /\ has_lf t = false
+    /\ s_disk (run_steps repaired std_lookup true (initial b) [SWrite t; SReopen; SUndo]) <> b
+    /\ has_cr (s_disk (run_steps repaired std_lookup false (initial b) [SWrite t; SReopen; SUndo])) = false
+    /\ s_disk (run_steps repaired std_lookup true (initial b) [SWrite t; SUndo]) = b.
+Proof. exists oneline_file, oneline_text. vm_compute. repeat split; try reflexivity; discriminate. Qed.
